@@ -193,6 +193,7 @@ func runScenario(sc scenario) (msg string, nlines int, nwrites int) {
 	scn := bufio.NewScanner(f)
 	scn.Buffer(make([]byte, 1<<22), 1<<22)
 	pending := map[string]string{}
+	noAppend := 0
 	for scn.Scan() {
 		l := scn.Text()
 		if m := unfinishedRE.FindStringSubmatch(l); m != nil {
@@ -207,8 +208,8 @@ func runScenario(sc scenario) (msg string, nlines int, nwrites int) {
 		}
 		if m := openRE.FindStringSubmatch(l); m != nil && m[2] == d.outPath {
 			opens++
-			if !strings.Contains(m[3], "O_APPEND") || !strings.Contains(m[3], "O_WRONLY") {
-				return "the events output was opened with flags " + m[3] + " (no O_APPEND: concurrent writes may overwrite each other)", nlines, nwrites
+			if !strings.Contains(m[3], "O_APPEND") {
+				noAppend++
 			}
 			outFD[m[4]] = true
 			continue
@@ -230,8 +231,9 @@ func runScenario(sc scenario) (msg string, nlines int, nwrites int) {
 			}
 		}
 	}
-	if opens != 1 {
-		return fmt.Sprintf("the events output was opened %d times, want once", opens), nlines, nwrites
+	if opens > 1 && noAppend > 0 {
+		// several open file descriptions without O_APPEND keep separate offsets: writes overwrite each other
+		return fmt.Sprintf("the events output was opened %d times, %d of them without O_APPEND", opens, noAppend), nlines, nwrites
 	}
 	if nwrites != nlines {
 		if b, err := os.ReadFile(d.strace); err == nil {
@@ -275,7 +277,7 @@ func runC10c(run *mc.Run) int {
 		}
 	}
 	cov := mc.Coverage{Level: "exploration", Evaluations: len(scs), Distinct: len(scs) - inconcl, Exhaustive: inconcl == 0, Samples: samples,
-		Rule:  "the built daemon under strace (-f -e trace=openat,write) with bursts on both FIFOs: sessions {2,16(,200)} x burst shape {alternating, simultaneous} x output {regular file, FIFO}; oracle: output opened once with O_WRONLY|O_APPEND, every write(2) on it returns its full length and carries exactly one complete JSON line, every output line parses, none twice, each login's UserLogin precedes its UserActions, per session exactly 1+3 events. OS schedules are not enumerated (order-independent oracle). distinct_nontrivial = conclusive scenarios",
+		Rule:  "the built daemon under strace (-f -e trace=openat,write) with bursts on both FIFOs: sessions {2,16(,200)} x burst shape {alternating, simultaneous} x output {regular file, FIFO}; oracle: never several descriptors without O_APPEND, every write(2) on it returns its full length and carries exactly one complete JSON line, every output line parses, none twice, each login's UserLogin precedes its UserActions, per session exactly 1+3 events. OS schedules are not enumerated (order-independent oracle). distinct_nontrivial = conclusive scenarios",
 		Extra: map[string]any{"output_lines_checked": lines}}
 	cov.Assumptions = []string{"Linux appends a single write(2) to an O_APPEND file atomically (and <= PIPE_BUF to a FIFO)", "strace's rendering of write(2)"}
 	return run.Finish(cov)
